@@ -1006,6 +1006,12 @@ def _sub_obligations(an, e, states, out, where):
             top = lhi * (1 << int(hi)) if lhi not in (None, INF) and hi not in (None, INF) else INF
             out.append({'kind': 'signed-shift', 'where': where, 'expr': sx(e), 'extent': 2**31 - 1, 'lo': llo, 'hi': top,
                         'ok': llo is not None and llo >= 0 and top <= 2**31 - 1})
+        # a right shift of a signed operand that may be negative is implementation-defined and drags the sign in
+        lt = an._static_type(e['l'])
+        if e['op'] == '>>' and lt and type_range(lt) and type_range(lt)[0] < 0:
+            llo, lhi = an.range_of(e['l'], states)
+            out.append({'kind': 'signed-shift', 'where': where, 'expr': sx(e), 'extent': 2**31 - 1, 'lo': llo, 'hi': lhi,
+                        'ok': llo is not None and llo >= 0})
     for ck in ('base', 'index', 'l', 'r', 'e', 'set', 'bitexpr'):
         if isinstance(e.get(ck), dict):
             _sub_obligations(an, e[ck], states, out, where)
